@@ -184,6 +184,46 @@ split.
   by [].
 Qed.
 
+(* hh_left: rows k, k+1, k+2 of every column j >= k are reflected by the SAME 3-vector map, everything else is untouched:
+   hh_left then hh_right with one (tau, v1, v2) is H M H on the entries they touch, H = I - tau w w^T symmetric *)
+Lemma nth_vset3 (c : seq F) k a0 a1 a2 i : (k + 2 < size c)%N ->
+  nth 0 (vset O (vset O (vset O c k a0) (k + 1) a1) (k + 2) a2) i =
+  if i == (k + 2)%N then a2 else if i == (k + 1)%N then a1 else if i == k then a0 else nth 0 c i.
+Proof.
+move=> h.
+have nv (v : seq F) a x b : (a < size v)%N -> nth 0 (vset O v a x) b = if b == a then x else nth 0 v b.
+  by elim: v a b => [|y v IH] [|a] [|b] //= hh; rewrite IH.
+have sv (v : seq F) a x : size (vset O v a x) = size v by elim: v a => [|y v IH] [|a] //=; rewrite IH.
+rewrite nv ?sv //; case: ifP => // _; rewrite nv ?sv; last by lia.
+by case: ifP => // _; rewrite nv //; lia.
+Qed.
+Lemma hh_left_entries n M k v1 v2 tau : wfm n M -> (k + 2 < n)%N ->
+  forall i j, (i < n)%N -> (j < n)%N ->
+    (~~ ((k <= j) && (k <= i <= k + 2))%N -> mget O (hh_left O M k v1 v2 tau) i j = mget O M i j) /\
+    ((k <= j)%N -> (mget O (hh_left O M k v1 v2 tau) k j, mget O (hh_left O M k v1 v2 tau) (k + 1) j, mget O (hh_left O M k v1 v2 tau) (k + 2) j)
+                   = hh3 tau v1 v2 (mget O M k j, mget O M (k + 1) j, mget O M (k + 2) j)).
+Proof.
+move=> [sM sc] k2 i j i_n j_n.
+have col : nth [::] (hh_left O M k v1 v2 tau) j =
+   if (k <= j)%N then let c := nth [::] M j in
+     vset O (vset O (vset O c k (nth 0 c k - tau * (nth 0 c k + v1 * nth 0 c (k + 1) + v2 * nth 0 c (k + 2))))
+                    (k + 1) (nth 0 c (k + 1) - tau * (nth 0 c k + v1 * nth 0 c (k + 1) + v2 * nth 0 c (k + 2)) * v1))
+            (k + 2) (nth 0 c (k + 2) - tau * (nth 0 c k + v1 * nth 0 c (k + 1) + v2 * nth 0 c (k + 2)) * v2)
+   else nth [::] M j.
+  rewrite /hh_left /mapi (@nth_mapi_s _ _ 0 _ M j [::] [::]) ?sM // add0n.
+  by case: (PeanoNat.Nat.leb_spec k j) => [/ssrnat.leP ->|/ssrnat.ltP h]; rewrite /vnth ?nthE //; have -> : (k <= j)%N = false by lia.
+split.
+- move=> out; rewrite !mgetE col; case: (leqP k j) => kj //=.
+  rewrite nth_vset3 ?sc //.
+  have -> : (i == k + 2)%N = false by move: out; rewrite kj /=; lia.
+  have -> : (i == k + 1)%N = false by move: out; rewrite kj /=; lia.
+  by have -> : (i == k) = false by move: out; rewrite kj /=; lia.
+- move=> kj; rewrite !mgetE col kj /= !nth_vset3 ?sc // !eqxx.
+  have -> : (k + 1 == k + 2)%N = false by lia.
+  have -> : (k == k + 2)%N = false by lia.
+  by have -> : (k == k + 1)%N = false by lia.
+Qed.
+
 Lemma hh_right_gram n U k v1 v2 tau : wfm n U -> (k + 2 < n)%N -> hh3_cond tau v1 v2 ->
   wfm n (hh_right O U k n v1 v2 tau) /\ forall i j, (i < n)%N -> (j < n)%N -> gram n (hh_right O U k n v1 v2 tau) i j = gram n U i j.
 Proof.
